@@ -89,7 +89,15 @@ T = [
     ("dfor", "(dfor i {0} {1} {2})", True, ()),
     ("gfor", "(list (gfor i {0} {1}))", True, ()),
     ("sfor-setv", "(sfor i {0} :setv j {1} {2})", True, ()),
-    ("fn-default", "(fn [a [b {0}]] {1})", False, ()),
+    ("fn-default", "(fn [a [b {0}]] {1})", True, (1,)),
+    ("fn-ann-param", "(fn [#^ {0} a] {1})", True, (1,)),
+    ("fn-ann-rest", "(fn [#^ {0} #* rest] {1})", True, (1,)),
+    ("fn-ann-kwargs", "(fn [a #^ {0} #** kw] {1})", True, (1,)),
+    ("fn-ann-kwonly", "(fn [* #^ {0} [k {1}]] 1)", True, ()),
+    ("fn-ann-return", "(fn #^ {0} [] {1})", True, (1,)),
+    ("defn-ann-rest", "(do (defn g [#^ {0} #* rest #^ {1} #** kw] 1) 2)", True, ()),
+    ("defn-ann-return", "(do (defn #^ {0} g [a [b {1}]] 1) 2)", True, ()),
+    ("defn-posonly-default", "(do (defn g [[a {0}] / [b {1}]] 1) 2)", True, ()),
     ("defn-decorators", "(defn [{0} {1}] g [] {2})", False, ()),
     ("defclass-bases", "(defclass K [{0} {1}])", False, ()),
     ("defclass-kw", "(defclass K [{0} :metaclass {1}])", False, ()),
